@@ -162,6 +162,7 @@ from mashumaro import DataClassDictMixin
 from mashumaro.config import (BaseConfig, TO_DICT_ADD_OMIT_NONE_FLAG, TO_DICT_ADD_BY_ALIAS_FLAG,
                               ADD_DIALECT_SUPPORT, ADD_SERIALIZATION_CONTEXT)
 from mashumaro.dialect import Dialect
+from mashumaro.mixins.toml import DataClassTOMLMixin
 class Color(enum.Enum):
     RED = 1
     BLUE = 2
@@ -253,9 +254,11 @@ def flat_source(fields: list[FieldSpec], o: Opts) -> str:
         src += dialect_source("CallD", o.call)
     if o.cfgd is not None:
         src += dialect_source("CfgD", o.cfgd)
-    if o.dd is not None:
+    if o.dd is not None and o.entry != "toml":
         src += dialect_source("DefD", o.dd)
-    src += class_source("X", fields, o)
+    # entry "toml": the class derives from DataClassTOMLMixin, whose builder gets default_dialect=TOMLDialect
+    # (omit_none = True): the fourth option level on the mixin path
+    src += class_source("X", fields, o, base="DataClassTOMLMixin" if o.entry == "toml" else None)
     src += class_source("XPlain", fields, None)
     return src
 
@@ -312,6 +315,9 @@ def run_entry(o: Opts, ns: dict, cls: str, inst):
         from mashumaro.codecs.basic import BasicEncoder
         enc = BasicEncoder(ns[cls], default_dialect=ns["DefD"] if o.dd is not None else None)
         return enc.encode(inst)
+    if o.entry == "toml":
+        import tomllib
+        return tomllib.loads(inst.to_toml(**call_kwargs(o, ns)))
     return inst.to_dict(**call_kwargs(o, ns))
 
 
@@ -404,13 +410,17 @@ NAMES = ["zeta", "b", "alpha", "m", "a", "yy", "k2", "B", "c_", "x"]
 ALIASES = ["A", "zz", "b_alias", "0k", "Key", "aa", "it's", "q"]
 
 
-def gen_fields(rng, nmax=6, collide=0.08) -> list[FieldSpec]:
+TOML_SHAPES = ("int", "float", "str", "bool", "optint", "any", "int_none", "list", "optlist", "ann_optint",
+               "fin_ann_optint", "ann_any", "wide_union")       # values identical in to_dict and after a TOML round trip
+
+
+def gen_fields(rng, nmax=6, collide=0.08, shapes=None) -> list[FieldSpec]:
     n = rng.randint(1, nmax)
     names = rng.sample(NAMES, n)
     aliases = rng.sample(ALIASES, len(ALIASES))
     fields = []
     for i, nm in enumerate(names):
-        sh = rng.choice(SHAPES)
+        sh = rng.choice(SHAPES if shapes is None else [x for x in SHAPES if x.key in shapes])
         dk, ds = rng.choice(sh.defaults)
         al = None
         if rng.random() < 0.5:
@@ -623,6 +633,9 @@ def eval_flat(ns: dict, src: str, fields, o: Opts, vals, want_coq=True) -> Eval:
     e = effective(o)
     expected = project(e, fields, defaults, inst, plain)
     ev.expected = expected
+    if o.entry == "toml" and any(v is None for v in expected.values()):
+        ev.kind = "toml-unrepresentable"       # TOML has no null: outside (tomli_w raises TypeError)
+        return ev
     try:
         observed = run_entry(o, ns, "X", inst)
     except Exception as ex:  # the property promises a mapping
@@ -849,7 +862,7 @@ def table_source(table: list[NCls], call, order: list[int]) -> str:
     return src
 
 
-def gen_tree(rng, table, cid: int, subs: bool = True):
+def gen_tree(rng, table, cid: int, subs: bool = True, depth: int = 0):
     """(cid, [child]) where child = python source of a leaf value | None | (cid, [...]) | [ (cid, [...]), ... ]"""
     ch = []
     for f in table[cid].fields:
@@ -857,14 +870,14 @@ def gen_tree(rng, table, cid: int, subs: bool = True):
             cands = [v for v in f.sh.values if v != "None" or f.nullable]
             ch.append("None" if (f.nullable and rng.random() < 0.5) else rng.choice(cands))
         elif f.many:
-            ch.append([gen_tree(rng, table, pick_cls(rng, table, f.members[0], subs), subs) for _ in range(rng.choice([0, 1, 1, 2]))])
+            ch.append([gen_tree(rng, table, pick_cls(rng, table, f.members[0], subs and depth < 3), subs, depth + 1) for _ in range(rng.choice([0, 1, 1, 2]))])
         elif f.mapping:
-            ch.append({f"k{i}": gen_tree(rng, table, pick_cls(rng, table, f.members[0], subs), subs)
+            ch.append({f"k{i}": gen_tree(rng, table, pick_cls(rng, table, f.members[0], subs and depth < 3), subs, depth + 1)
                        for i in range(rng.choice([0, 1, 1, 2]))})
         elif f.optional and rng.random() < 0.3:
             ch.append("None")
         else:
-            ch.append(gen_tree(rng, table, pick_cls(rng, table, rng.choice(f.members), subs), subs))
+            ch.append(gen_tree(rng, table, pick_cls(rng, table, rng.choice(f.members), subs and depth < 3), subs, depth + 1))
     return (cid, ch)
 
 
@@ -1208,9 +1221,12 @@ def run_flat(ctx: vlib.Ctx, cases: list[str], case_info: list):
     rng = ctx.rng
     n_classes = ctx.budget(260, 2600)
     for ci in range(n_classes):
-        entry = "codec" if rng.random() < 0.2 else "to_dict"
-        fields = gen_fields(rng)
-        o0 = gen_opts(rng, entry)
+        r = rng.random()
+        entry = "codec" if r < 0.2 else ("toml" if r < 0.32 else "to_dict")
+        fields = gen_fields(rng, shapes=TOML_SHAPES if entry == "toml" else None)
+        o0 = gen_opts(rng, "to_dict" if entry == "toml" else entry)
+        if entry == "toml":
+            o0 = replace(o0, entry="toml", dd=("T", "U", "U"), lazy=False)
         src = flat_source(fields, o0)
         try:
             ns = load(src)
@@ -1518,6 +1534,9 @@ def replay(rep: dict) -> int:
             from mashumaro.codecs.json import JSONEncoder
             dd = ns[rep["default_dialect"]] if rep.get("default_dialect") else None
             got = _json.loads(JSONEncoder(ns[rep["cls"]], default_dialect=dd).encode(inst))
+        elif rep.get("entry") == "toml":
+            import tomllib
+            got = tomllib.loads(eval(f"_x.to_toml({rep['kwargs']})", dict(ns, _x=inst)))
         elif rep.get("entry") == "codec":
             from mashumaro.codecs.basic import BasicEncoder
             dd = ns[rep["default_dialect"]] if rep.get("default_dialect") else None
